@@ -1166,11 +1166,16 @@ def _preload():
     import pyipmi.interfaces.ipmitool  # noqa: F401
 
 
-def _pristine():
-    global _PRISTINE
+_CTX_CLASS = None
+
+
+def _pristine(ctx=None):
+    global _PRISTINE, _CTX_CLASS
     if _PRISTINE is None:
+        if ctx is not None:
+            _CTX_CLASS = ctx.__class__
         try:
-            _PRISTINE = pristine.Pristine({'history': exec_history}, _preload)
+            _PRISTINE = pristine.Pristine({'history': exec_history, 'replay': _child_replay}, _preload)
         except OSError:
             _PRISTINE = False
     return _PRISTINE or None
@@ -1252,12 +1257,16 @@ def shrink_history(p, case, res, sig):
 # ---------------------------------------------------------------------------------------------
 
 def run(ctx):
-    _pristine()          # forked now: this process has not used the back-end yet
+    _pristine(ctx)       # forked now: this process has not used the back-end yet
     work = Work()
+    first = 0
     try:
         var = probe_variant()
         ctx.extra['variant(escape,cipherNotNone,depth1)'] = var
         rng = ctx.rng('c19')
+        # 0. histories on one object (in pristine child processes)
+        run_histories(ctx, var)
+        first = len(ctx.violations)
         # 1. credentials through the real shell
         creds = credential_cases(ctx, rng)
         run_shell_cases(ctx, work, creds, var)
@@ -1270,14 +1279,53 @@ def run(ctx):
         # 3. reply side
         run_reply(ctx, var)
         run_e2e(ctx, work)
-        # 4. histories on one object
-        run_histories(ctx, var)
         leftovers = sorted(os.listdir(os.path.join(work.dir, 'cwd')))
         if leftovers:
             ctx.notes.append('command lines broken by unescaped credentials created %d files in the scratch cwd, e.g. %s'
                              % (len(leftovers), [ascii(x) for x in leftovers[:4]]))
     finally:
         work.cleanup()
+        _confirm_single_calls(ctx, first)
+
+
+def _child_replay(v):
+    c = _CTX_CLASS('C19', 'quick', 0)
+    try:
+        import contextlib
+        import io
+        with contextlib.redirect_stdout(io.StringIO()):
+            return bool(replay(c, v))
+    finally:
+        c.close()
+
+
+def _confirm_single_calls(ctx, first_index):
+    """The single-call streams make thousands of calls in this process (eight threads).  A violation they report is
+    re-run alone in a pristine child: when it does not show there it depends on what other calls left behind in the
+    process, and its signature says so (the history stream, run first, is where such state gets a replay)."""
+    p = _pristine(ctx)
+    if p is None:
+        return
+    settled, dependent, budget = set(), {}, 12
+    for v in ctx.violations[first_index:]:
+        sig = v['signature']
+        if v['case'].get('kind') == 'history' or sig in settled:
+            continue
+        if dependent.get(sig, 0) < 3:
+            if budget <= 0:
+                break
+            budget -= 1
+            try:
+                if p.call('replay', v):
+                    settled.add(sig)
+                    continue
+            except pristine.PristineError as e:
+                ctx.notes.append('confirmation of %s in a new process failed: %s' % (sig, str(e)[-160:]))
+                continue
+            dependent[sig] = dependent.get(sig, 0) + 1
+            v['what'] += ' - NOT reproduced by this call alone in a new process: it depends on calls made earlier in ' \
+                         'the same process (see the C19:history:* findings for a replay)'
+        v['signature'] = _history_sig(sig)
 
 
 def search(ctx):
